@@ -495,6 +495,8 @@ package bkl
 //@     assert (and (= (select (mc obj@pre) "$merge") VAbsent) (= v (select (mc obj@pre) "$replace")))        [C10]
 //@ func process1MapMerge(obj, mergeFrom, mergeFromDocs, v, depth) (res, err)
 //@   propagates all   [C08]
+//@   property C09 shallow   -- determinism rests on the looked-up subtree being copied BEFORE it is merged or evaluated (ownership obligations): a merge that reads a tree which is being written depends on map order
+//@   ensures (=> (not (isErr err)) (called process1#1))     [C10]   -- whatever the reference resolves to is evaluated: a referenced scalar may itself be a reference
 //@   fails-only-through-calls   [C10]   -- a reference behaves like the inlined subtree: no failure of its own beyond the look-up, the copy, the merge and the evaluation
 //@   ensures (=> (not (isErr err)) (noNullV res))     [C13]
 //@   inplace obj
@@ -507,6 +509,8 @@ package bkl
 //@     assert (=> ((_ is VList) v) (listPathOK (heap Document.Data) (Document.Data mergeFrom) mergeFromDocs (ls v) in false))  [C10]
 //@ func process1MapReplace(obj, mergeFrom, mergeFromDocs, v, depth) (res, err)
 //@   propagates all   [C08]
+//@   property C09 shallow   -- determinism rests on the looked-up subtree being copied BEFORE it is merged or evaluated (ownership obligations): a merge that reads a tree which is being written depends on map order
+//@   ensures (=> (not (isErr err)) (called process1#1))     [C10]   -- whatever the reference resolves to is evaluated: a referenced scalar may itself be a reference
 //@   fails-only-through-calls   [C10]   -- a reference behaves like the inlined subtree: no failure of its own beyond the look-up, the copy, the merge and the evaluation
 //@   ensures (=> (not (isErr err)) (noNullV res))     [C13]
 //@   decreases (- 1002 depth) 1
@@ -541,6 +545,8 @@ package bkl
 //@   decreases (- 1002 depth) 5
 //@ func process1ListReplace(obj, mergeFrom, mergeFromDocs, m, depth) (res, err)
 //@   propagates all   [C08]
+//@   property C09 shallow   -- determinism rests on the looked-up subtree being copied BEFORE it is merged or evaluated (ownership obligations): a merge that reads a tree which is being written depends on map order
+//@   ensures (=> (not (isErr err)) (called process1#1))     [C10]   -- whatever the reference resolves to is evaluated: a referenced scalar may itself be a reference
 //@   fails-only-through-calls   [C10]   -- a reference behaves like the inlined subtree: no failure of its own beyond the look-up, the copy, the merge and the evaluation
 //@   ensures (=> (not (isErr err)) (noNullV res))     [C13]
 //@   decreases (- 1002 depth) 1
@@ -551,6 +557,8 @@ package bkl
 //@   decreases (- 1002 depth) 5
 //@ func process1StringMerge(obj, mergeFrom, mergeFromDocs, depth) (res, err)
 //@   propagates all   [C08]
+//@   property C09 shallow   -- determinism rests on the looked-up subtree being copied BEFORE it is merged or evaluated (ownership obligations): a merge that reads a tree which is being written depends on map order
+//@   ensures (=> (not (isErr err)) (called process1#1))     [C10]   -- whatever the reference resolves to is evaluated: a referenced scalar may itself be a reference
 //@   fails-only-through-calls   [C10]   -- a reference behaves like the inlined subtree: no failure of its own beyond the look-up, the copy, the merge and the evaluation
 //@   ensures (=> (not (isErr err)) (noNullV res))     [C13]
 //@   decreases (- 1002 depth) 1
@@ -558,6 +566,8 @@ package bkl
 //@     assert (strPathOK (heap Document.Data) (Document.Data mergeFrom) mergeFromDocs (trimPrefix obj "$merge:") in false)      [C10]
 //@ func process1StringReplace(obj, mergeFrom, mergeFromDocs, depth) (res, err)
 //@   propagates all   [C08]
+//@   property C09 shallow   -- determinism rests on the looked-up subtree being copied BEFORE it is merged or evaluated (ownership obligations): a merge that reads a tree which is being written depends on map order
+//@   ensures (=> (not (isErr err)) (called process1#1))     [C10]   -- whatever the reference resolves to is evaluated: a referenced scalar may itself be a reference
 //@   fails-only-through-calls   [C10]   -- a reference behaves like the inlined subtree: no failure of its own beyond the look-up, the copy, the merge and the evaluation
 //@   ensures (=> (not (isErr err)) (noNullV res))     [C13]
 //@   decreases (- 1002 depth) 1
@@ -741,6 +751,7 @@ package bkl
 
 //@ func process1ListMerge(obj, mergeFrom, mergeFromDocs, m, depth) (res, err)
 //@   propagates all   [C08]
+//@   property C09 shallow
 //@   fails-only-through-calls   [C10]   -- a reference behaves like the inlined subtree: no failure of its own beyond the look-up, the copy, the merge and the evaluation
 //@   property C10
 //@   consumes obj
@@ -1315,7 +1326,7 @@ package bkl
 //@                   (and (not (isErr err)) (= real (findFileF (trimSuffix path (str.++ "." (extOf path))))) (= format (extOf path)))))
 //
 //@ func file.parentsFromFilename(f) (res, err)
-//@   property C18 shallow   -- an attempt to reach a layer outside the root must FAIL, whatever exists there: which names are parents, and that a name without a file is an error and not "no parents", is decided here
+//@   property C18, C04 shallow   -- (C04: which layers a NAME inherits from must not depend on the extension the layer is written in) an attempt to reach a layer outside the root must FAIL, whatever exists there: which names are parents, and that a name without a file is an error and not "no parents", is decided here
 //@   propagates all   [C08]
 //@   property C03
 //@   ensures (=> (isStdinF (file.path f)) (and (not (isErr err)) (= res (Slice SNil))))                                                            [C03]
@@ -1362,7 +1373,7 @@ package bkl
 //@     invariant (= (sapp (sitems ret) (absList (file.root f) (pathDir (file.path f)) rest)) (absList (file.root f) (pathDir (file.path f)) (sitems paths)))
 //
 //@ func file.parentsFromSymlink(f) (res, err)
-//@   property C18 shallow   -- an attempt to reach a layer outside the root must FAIL, whatever exists there: which names are parents, and that a name without a file is an error and not "no parents", is decided here
+//@   property C18, C04 shallow   -- (C04: which layers a NAME inherits from must not depend on the extension the layer is written in) an attempt to reach a layer outside the root must FAIL, whatever exists there: which names are parents, and that a name without a file is an error and not "no parents", is decided here
 //@   propagates all   [C08]
 //@   effects probe:filepath.EvalSymlinks
 //@   property C03
@@ -1381,7 +1392,7 @@ package bkl
 //
 
 //@ func file.parentsFromDirective(f) (res, err)
-//@   property C18 shallow   -- an attempt to reach a layer outside the root must FAIL, whatever exists there: which names are parents, and that a name without a file is an error and not "no parents", is decided here
+//@   property C18, C04 shallow   -- (C04: which layers a NAME inherits from must not depend on the extension the layer is written in) an attempt to reach a layer outside the root must FAIL, whatever exists there: which names are parents, and that a name without a file is an error and not "no parents", is decided here
 //@   propagates all   [C08]
 //@   property C03
 //@   uses sappNil, sappAssoc, ssnocApp, rdistinctApp, rmemApp
@@ -1397,7 +1408,7 @@ package bkl
 //@     invariant (= (sapp (sitems parents) (dirStrs (old (heap Document.Data)) rest)) (dirStrs (old (heap Document.Data)) (file.docs f)))
 //
 //@ func file.parents(f) (res, err)
-//@   property C18 shallow   -- an attempt to reach a layer outside the root must FAIL, whatever exists there: which names are parents, and that a name without a file is an error and not "no parents", is decided here
+//@   property C18, C04 shallow   -- (C04: which layers a NAME inherits from must not depend on the extension the layer is written in) an attempt to reach a layer outside the root must FAIL, whatever exists there: which names are parents, and that a name without a file is an error and not "no parents", is decided here
 //@   propagates all   [C08] [C20] [C07] [C03]
 //@   property C03
 //@   requires (rdistinct (file.docs f))
